@@ -153,6 +153,16 @@ CHECKS = {
             'CLP/CPLEX/Mosek/COPT interfaces cannot be exercised (solvers not installed); ECOS_BB (integers through ECOS) not exercised (can run for minutes on trivial programs); ECOS numerical '
             'failures on feasible programs skipped; exp-cone programs have a single interface (vector check only).',
             'DESIGN.md section 4 / C11'),
+    'C15': ('metamorphic property-based testing: two presentations of one generated model drawn from the group of meaning-preserving '
+            'rewrites must have equal optima',
+            'Generated-input search over deterministic (all atoms) and robust models written twice with independently drawn rewrite '
+            'knobs (objective sense flip, declaration and constraint order, comparison spelling, equality vs inequality pair, bound '
+            'objects vs rows vs inf-norm, array vs row-wise, rescaling, atom spellings, set argument forms, adapt() granularity, '
+            'vector vs scalar robust constraints, ro vs single-scenario dro). A crash or a differing solver verdict in one '
+            'presentation is a violation. Sampling, not proof.',
+            'Both presentations go through RSOME (no external oracle): a defect shared by all presentations is invisible here and is '
+            'the business of C01-C08; kldiv() on decisions has no dro presentation (rejected by design).',
+            'DESIGN.md section 4 / C15'),
 }
 
 NOT_YET = 'check not built yet in this round (see DESIGN.md section 4 for the planned generator and oracle)'
